@@ -77,6 +77,25 @@ def _expand(func, args, kwargs):
     return like(a, np.broadcast_to(p, tuple(m.shape)))
 
 
+@handles("broadcast_tensors")
+def _broadcast_tensors(func, args, kwargs):
+    ts = list(args[0]) if len(args) == 1 and isinstance(args[0], (list, tuple)) else list(args)
+    shape = tuple(torch.broadcast_shapes(*[tuple(t.shape) for t in ts]))
+    out = []
+    for t in ts:
+        if not isinstance(t, Sym):
+            from .ops import lift_tensor
+            t = lift_tensor(t)
+        p = P(t)
+        out.append(t if tuple(p.shape) == shape else like(t, np.broadcast_to(p, shape)))
+    return tuple(out)
+
+
+@handles("_is_all_true")
+def _is_all_true(func, args, kwargs):
+    return HANDLERS["all"](torch.all, (args[0],), {})
+
+
 @handles("permute")
 def _permute(func, args, kwargs):
     a = args[0]
